@@ -11,7 +11,7 @@ SPEC = dict(modules=["MemVerif.Props.C09"], gen_cfgs=("rwdi",),
 
 def run(ctx):
     common.run_sweep(ctx, "C09", "subj_compose", ["rwdi", "dbg"] + (["rel"] if ctx.thorough else []),
-                     ["1" if ctx.thorough else "0", ctx.seed], ["cmp"], subject="compose")
+                     ["1" if ctx.thorough else "0", ctx.seed], ["cmp"], subject="compose", ignore_known=("D35",))
     ctx.coverage["rule"] = ("14 compositions up to depth 3 over instrumented leaf allocators (with and without array members) in adjacent memory: "
                             "fallback (plain, nested, over aligned/tracked), aligned, tracked (inside and outside a fallback), binary and 3-way "
                             "segregator, direct/reference/type-erased/mutex storage; seeded histories (150 quick / 600 thorough operations each) of "
